@@ -46,7 +46,7 @@ PROPS = {
     ),
     "C10": dict(
         title="Rounding a datetime yields the correct multiple of the increment for every mode",
-        verus=["round", "rounders", "zonedround"],
+        verus=["round", "rounders", "zonedround", "offround"],
         kani_quick=[], kani_thorough=["c10_model"],
         design_ref="DESIGN.md section 4, C10",
     ),
@@ -78,7 +78,7 @@ PROPS = {
     ),
     "C05": dict(
         title="Fallible operations return errors: no panics, no out-of-range results",
-        verus=["posix", "tzif", "rounders", "sdur", "zoned", "span", "civiladd", "civildiff", "ambig", "isoweek", "spanround", "zonedround", "tsarith"],
+        verus=["posix", "tzif", "rounders", "sdur", "zoned", "span", "civiladd", "civildiff", "ambig", "isoweek", "spanround", "zonedround", "tsarith", "offround"],
         all_fns=True,
         kani_quick=["c01_civil", "c02_wrappers"],
         kani_thorough=["c10_model"],
